@@ -26,6 +26,7 @@ DESIGNS = {
     "interleaved": {"sets": [61, 101, 61, 101]},
     "with-unphased": {"sets": [61, None, 61, 61]},
     "two-samples": {"sets": [61, 61, 61, 61], "s2": [61, 61, 141, 141]},
+    "three-one": {"sets": [61, 61, 61, 181]},  # a read over all four variants is decided by the first set, its last variant lies in the second
 }
 
 # alignment kinds: name -> (first variant, last variant, allele source per covered variant, extras)
@@ -51,6 +52,7 @@ KINDS = {
     "TE": dict(span=None, stale=True),  # stale tags, covers no variant
     "LA": dict(span=(0, 1), hap=0, bx="bx1"),
     "LE": dict(span=None, bx="bx1"),
+    "LT": dict(span=None, stale=True, bx="bx1"),  # barcode, no variant of its own, stale tags from an earlier run
     "LF": dict(span=(2, 3), hap=1, bx="bx1"),  # same barcode, 80 bp to the right of LA, the other haplotype
     "NM": dict(unmapped=True, placed=True, mate_of_prev=True),  # unmapped mate placed at (and named like) the previous alignment
 }
